@@ -89,8 +89,12 @@ def run(tape, scenario):
         return bytes([(1 if is_open else 0) | (2 if is_closed else 0)])
     sims[0].input_fn = switches
 
+    updates = [0]
+    second_session = []
+
     class JudgedValve(Valve):
         def update(self):
+            updates[0] += 1
             o, c = bool(self.openSwitch), bool(self.closedSwitch)
             before = dict(coil=bool(self.coil), target=bool(self.target), error=bool(self.error),
                           now=world.now)
@@ -142,6 +146,9 @@ def run(tape, scenario):
     valve.closedSwitch = PacketVar(terms[0], SyncManager.IN, 0, 1)
     sg = SyncGroup(ec, [valve])
     ncycles = 20 + tape.draw("c27/cycles", 100)
+    silent_from = 3 + tape.draw("c27/silent-from", 40) if tape.chance("c27/switch-terminal-silent", 20) \
+        else None
+    silent_for = 2 + tape.draw("c27/silent-for", 30)
     cycles = [0]
     moved = [0]
     orig_update = sg.update_devices
@@ -160,7 +167,20 @@ def run(tape, scenario):
             if valve.error and tape.chance("c27/reset", 50):
                 valve.reset()
                 model["last_good"] = world.now
+        # the terminal with the switches falls silent for a while (longer than the moving
+        # time in some runs): the valve goes on being supervised with what it last saw
+        if silent_from is not None and cycles[0] == silent_from and not second_session:
+            sims[0].skip_datagram = lambda d: True
+            world.count("fault/switch-terminal-silent")
+        if silent_from is not None and cycles[0] == silent_from + silent_for \
+                and not second_session:
+            sims[0].skip_datagram = lambda d: False
+        seen = updates[0]
         out = orig_update(data)
+        if updates[0] == seen and not violations:
+            viol("valve-not-updated", f"cycle {cycles[0]} at t={world.now:.3f}: the group "
+                 f"handled a response without updating the valve (wkc errors so far "
+                 f"{sg.wkc_errors})", safe_state=safe)
         # the clock jumps between cycles
         j = tape.draw("c27/jump", 12)
         if j >= 8:
@@ -185,6 +205,8 @@ def run(tape, scenario):
             # the same group and valve started again (fresh frame buffer); the history
             # begins with a reset again
             world.count("c27/group-started-a-second-time")
+            sims[0].skip_datagram = lambda d: False     # (the terminal answers again)
+            second_session.append(True)                 # (no silent phase in this session)
             cycles[0] = 0
             model["done"] = False
             task = sg.start()
